@@ -8,8 +8,11 @@ expected_degree, dimension_sequence(expected=True)) is compared with the
 
 fit(): parameters supplied at construction must come back bit-identical (and the
 caller's arrays untouched), everything finite and non-negative, w symmetric /
-diagonal; with u supplied the exact Poisson log-likelihood (w_prior = 0) or the
-MAP objective (w_prior > 0) of the data must not decrease with n_iter.
+diagonal (a third of the validity cases train both parameters with more
+communities than the data support, where a community dies out by underflow); the
+maximum size is detected from the data when not supplied; with u supplied the
+exact Poisson log-likelihood (w_prior = 0) or the MAP objective (w_prior > 0) of
+the data must not decrease over fresh fits with n_iter = 1..8 and the same seed.
 
 Tolerances (DESIGN 1.4)
   closed forms : |obs - exp| <= 1e-9*|exp| + 1e-13*M, where M = (sum_i u_i)^T w (sum_i u_i)
@@ -39,7 +42,8 @@ ASSUMPTIONS = [
     "binom(N-2,d-2)*d*(d-1)/2 as in the reference paper ('binom+avg', the only implemented form)",
     "domain: 3 <= N <= 7, 1 <= K <= 3, 2 <= D <= N, entries of u and w are 0 or in [0.25, 2] "
     "(bounded condition number, so that rtol 1e-9 is meaningful for the cancelling shortcuts)",
-    "fit: hyperedge sizes >= 2, at least one hyperedge, positive integer weights, row i of a "
+    "fit: 2 <= N <= 7 nodes with any comparable labels (isolated nodes allowed), hyperedge "
+    "sizes 2..D <= N, at least one hyperedge, positive integer weights, row i of a "
     "supplied u belongs to the node that Hypergraph.get_mapping() sends to i; a supplied u is "
     "strictly positive and a supplied w has at least one positive entry (zero rows allowed), so "
     "that every observed hyperedge has a positive Poisson rate -- data of probability zero "
@@ -646,27 +650,27 @@ def _ascent_strategy(tier):
 
 
 CLAUSES = [
-    Clause("poisson_params", _params_strategy, check_poisson_params, quick=150, thorough=1000,
+    Clause("poisson_params", _params_strategy, check_poisson_params, quick=150, thorough=2000,
            shards_quick=2,
            rule="D >= 3, K >= 2 and at least one positive Poisson parameter; all hyperedges of "
                 "size 2..D enumerated, dense and sparse incidence"),
-    Clause("kappa", _params_strategy, check_kappa, quick=150, thorough=1000,
+    Clause("kappa", _params_strategy, check_kappa, quick=150, thorough=2000,
            rule="D >= 3 (every size 2..D as int and numpy int, a drawn array of sizes)"),
-    Clause("expected_degree", _params_strategy, check_expected_degree, quick=150, thorough=1000,
+    Clause("expected_degree", _params_strategy, check_expected_degree, quick=150, thorough=2000,
            shards_quick=2,
            rule="D >= 3, K >= 2 and a positive expected degree"),
     Clause("dimension_sequence", _params_strategy, check_dimension_sequence, quick=200,
-           thorough=1000,
+           thorough=2000,
            rule="D >= 3, K >= 2 and at least one size with positive expected count"),
-    Clause("fit_fixed_params", _fit_strategy, check_fit_fixed_params, quick=200, thorough=1000,
+    Clause("fit_fixed_params", _fit_strategy, check_fit_fixed_params, quick=200, thorough=2500,
            shards_quick=2,
            rule="exactly one of u, w supplied (the other one is trained) and n_iter >= 2"),
-    Clause("fit_validity", _validity_strategy, check_fit_validity, quick=300, thorough=1000,
+    Clause("fit_validity", _validity_strategy, check_fit_validity, quick=400, thorough=2500,
            shards_quick=2,
            rule="at least one parameter trained, n_iter >= 2, K >= 2"),
-    Clause("fit_max_size", _fit_strategy, check_fit_max_size, quick=150, thorough=500,
+    Clause("fit_max_size", _fit_strategy, check_fit_max_size, quick=300, thorough=1000,
            rule="max_hye_size=None and data with a hyperedge of size >= 3"),
-    Clause("em_ascent", _ascent_strategy, check_em_ascent, quick=120, thorough=500,
+    Clause("em_ascent", _ascent_strategy, check_em_ascent, quick=150, thorough=1200,
            shards_quick=3,
            rule="K >= 2, data with a hyperedge of size >= 3, objective strictly increases at "
                 "least once over n_iter = 1..8"),
